@@ -197,5 +197,8 @@ func c12() int {
 	cov["odd_programs"] = len(odd)
 	cov["near_duplicate_cache_runs"] = nearRuns
 	rep.Assume = []string{"termination is checked by a 180 s per-case watchdog (no case comes near it); the VM has no backward jumps"}
+	// sequences of scripts through one Commander / one cache / two ledgers (scriptseq.go)
+	seqN, seqSteps := scriptSequences(rep, "residue-")
+	cov["script_sequences"], cov["script_sequence_steps"] = seqN, seqSteps
 	return rep.Finish(cov)
 }
